@@ -120,6 +120,7 @@ def lemmas(ctx):
 
 
 def run(ctx):
+    tlc.apalache_inductive(ctx, "B (blocks / files / PKTIDX)")
     lemmas(ctx)
     ctx.assume("independent GUPPI framing parser/writer in /verif/harness/guppi.py; directory listing order substituted "
                "through raw_utils.glob.glob; header values compared at 1e-12 relative (card text formatting)")
